@@ -49,16 +49,20 @@ inductive ConformsFields (reg : Reg) : List InField → List (String × PV) → 
 end
 
 /-- well-formed registry: field types are well-formed type expressions, declared defaults conform to
-    their types (a schema built from SDL coerces them with `value_from_ast`), enum internal values are not `None`. -/
+    their types (a schema built from SDL coerces them with `value_from_ast`), enum internal values are not `None`,
+    the python names of one input object's fields are pairwise distinct (otherwise two fields write the same dict key;
+    the model follows that collision, `dictOfAssignments`, but then no dict can hold both fields). -/
 structure RegOK (reg : Reg) : Prop where
   fieldWf : ∀ n fs, reg.get? n = some (.input fs) → ∀ f, f ∈ fs → f.type.wf = true
   defaultsConform : ∀ n fs, reg.get? n = some (.input fs) → ∀ f, f ∈ fs → ∀ d, f.default = some d → Conforms reg f.type d
   enumNotNone : ∀ n vs, reg.get? n = some (.enum vs) → ∀ p, p ∈ vs → p.2.isNone = false
+  pyNamesDistinct : ∀ n fs, reg.get? n = some (.input fs) → (fs.map (fun f => f.pyName)).Nodup
 
 /-- argument definitions of a field / directive: same three conditions -/
 structure ArgsOK (reg : Reg) (defs : List InField) : Prop where
   wf : ∀ d, d ∈ defs → d.type.wf = true
   defaultsConform : ∀ d, d ∈ defs → ∀ v, d.default = some v → Conforms reg d.type v
+  pyNamesDistinct : (defs.map (fun d => d.pyName)).Nodup
 
 def Lit.isLeaf : Lit → Bool
   | .null => true | .int _ => true | .float _ _ => true | .str _ => true | .bool _ => true | .enum _ => true
@@ -81,6 +85,24 @@ inductive VarsFit (reg : Reg) (vars : Option (List (String × PV))) : Ty → Lit
       reg.get? n = some (.input fs) →
       (∀ f, f ∈ fs → ∀ l, lookupLast f.name lkvs = some l → VarsFit reg vars f.type l) →
       VarsFit reg vars ty (.obj lkvs)
+
+/-- What the validation rule VariablesInAllowedPosition has checked for the variables used inside literal `l` at a
+    position of type `ty` (`hasDefault`: the position — argument or input field — declares a default): every usage `$x`
+    is allowed (`allowedUsage`) against every definition of `$x`. Same shape as `VarsFit`; list items never have a default,
+    input fields have the field's. -/
+inductive VarsAllowed (reg : Reg) (defs : List VarDef) : Ty → Bool → Lit → Prop
+  | var {ty : Ty} {hasDefault : Bool} {x : String} :
+      (∀ d, d ∈ defs → d.name = x → allowedUsage d.type d.hasNonNullDefault ty hasDefault = true) →
+      VarsAllowed reg defs ty hasDefault (.var x)
+  | leaf {ty : Ty} {hasDefault : Bool} {l : Lit} : l.isLeaf = true → VarsAllowed reg defs ty hasDefault l
+  | listItems {ty t' : Ty} {hasDefault : Bool} {items : List Lit} : stripNN ty = .list t' →
+      (∀ i, i ∈ items → VarsAllowed reg defs t' false i) → VarsAllowed reg defs ty hasDefault (.list items)
+  | listSingle {ty t' : Ty} {hasDefault : Bool} {lkvs : List (String × Lit)} : stripNN ty = .list t' →
+      VarsAllowed reg defs t' false (.obj lkvs) → VarsAllowed reg defs ty hasDefault (.obj lkvs)
+  | obj {ty : Ty} {hasDefault : Bool} {n : String} {fs : List InField} {lkvs : List (String × Lit)} : stripNN ty = .named n →
+      reg.get? n = some (.input fs) →
+      (∀ f, f ∈ fs → ∀ l, lookupLast f.name lkvs = some l → VarsAllowed reg defs f.type f.default.isSome l) →
+      VarsAllowed reg defs ty hasDefault (.obj lkvs)
 
 mutual
 /-- `AstOfJson reg ty j l`: `l` is the literal spelling (`astOfJson`) of the JSON value `j` at a position of
